@@ -47,6 +47,11 @@ def KW.res (m : Nat) : KW → KRes
   | .block => .again
   | .err => .fail
 
+/-- The answer to the next kernel call: the head of the script, "would block" once it is used up. -/
+def nextAnswer : List KW → KW × List KW
+  | [] => (.block, [])
+  | k :: ks => (k, ks)
+
 /-- Kernel contract used by the termination theorem only: a successful write of `m > 0`
     requested bytes returns at least 1. -/
 def KW.ok : KW → Bool
@@ -124,9 +129,8 @@ def writev {α : Type} (cap : Nat) (w : Writer α) (frame : List (List α)) (ks 
   let total := data.length                       -- `to_write` (local)
   if total = 0 then ⟨⟨[], false⟩, 0, [], ks, 0⟩ else
   -- one kernel call
-  let (k, ks') := match ks with
-    | [] => (KW.block, [])
-    | k :: ks' => (k, ks')
+  let k := (nextAnswer ks).1
+  let ks' := (nextAnswer ks).2
   match k.res total with
   | .fail => ⟨w, -1, [], ks', 1⟩
   | .took n =>
@@ -191,6 +195,12 @@ def step {α : Type} (cap : Nat) (r : Run α) : Op α → Run α
 
 def run {α : Type} (cap : Nat) (ops : List (Op α)) : Run α := ops.foldl (step cap) {}
 
+/-- The frames offered by a script, in generation order. -/
+def offered : List (Op α) → List (List (List α))
+  | [] => []
+  | .writev f _ :: ops => f :: offered ops
+  | .writable _ :: ops => offered ops
+
 /-- Concatenation of frames in order. -/
 def streamOf {α : Type} (frames : List (List (List α))) : List α := (frames.map List.flatten).flatten
 
@@ -216,9 +226,8 @@ def writev {α : Type} (cap : Nat) (w : Writer α) (frame : List (List α)) (ks 
   let data := w.pending ++ frame.flatten
   let total := data.length
   if total = 0 then ⟨⟨[], false⟩, 0, [], ks, 0⟩ else
-  let (k, ks') := match ks with
-    | [] => (KW.block, [])
-    | k :: ks' => (k, ks')
+  let k := (nextAnswer ks).1
+  let ks' := (nextAnswer ks).2
   match k.res total with
   | .fail => ⟨w, -1, [], ks', 1⟩
   | .took n =>
